@@ -492,6 +492,22 @@ def a_r1_getattr(schema: Schema, rep: Report):
             node = par
         rep.check("A-R1", f"__getattr__:read#{i}:{text(r)}", covered,
                   f"{text(r)} is evaluated outside a handler for (AttributeError, KeyError): Element.__get__ raises KeyError for a value that is not set (e.g. while copy/pickle rebuild the instance), which then escapes from __getattr__" if not covered else "", f"{rel}:{r.lineno}")
+    # the descriptors __getattr__ reads must not answer an unset slot with AttributeError themselves: raised by a data
+    # descriptor, it makes Python call __getattr__ for THAT name, whose first step reads a descriptor again - for an
+    # instance whose first sub-aggregate is unset (every aggregate with repeated children; the blank instance that copy /
+    # pickle build) the lookup never ends (RecursionError out of hasattr(), getattr(.., default), copy, pickle)
+    try:
+        from .dispatch import TYPES as _TYPES
+        from .flat import flat as _flat0
+
+        el_ = p.get_class(_TYPES, "Element")
+        g_ = el_.own_func("__get__")
+        if g_ is not None:
+            gf_ = _flat0(p, _TYPES, g_, el_)
+            bad_ = next((r_ for r_ in ast.walk(gf_) if isinstance(r_, ast.Raise) and r_.exc is not None and "AttributeError" in ast.unparse(r_.exc)), None)
+            rep.check("A-R1", "Element.__get__:unset-slot-is-not-AttributeError", bad_ is None, "Element.__get__ raises AttributeError for an unset slot: Python then asks Aggregate.__getattr__ for that very name, which starts by reading the first sub-aggregate's descriptor - unset as well on every aggregate with repeated children and on the blank instance copy / pickle create - and recurses without end" if bad_ is not None else "", f"{p.module(_TYPES).relpath}:{(bad_ or g_).lineno}")
+    except AnalysisError:
+        pass
     for n in own_nodes(fn):
         if isinstance(n, ast.Raise):
             ok = n.exc is not None and ast.unparse(n.exc).startswith("AttributeError")
@@ -583,6 +599,17 @@ def a_r2_r3_properties(schema: Schema, rep: Report):
                     outer = chain[-1]
                     ok_ = text(outer.iter) == "self"
                     rep.check("A-R3", f"{cname}.{fn.name}:document-order", ok_, f"the members are walked inside an outer loop over {text(outer.iter)[:50]}: the result is grouped by that table instead of following the order of the members in the document" if not ok_ else "", f"{definer.mod.relpath}:{outer.lineno}")
+            # a shortcut hands out the very objects the full path leads to - never copies of them (identity, and
+            # writes through the shortcut, would be lost; every read would build new objects)
+            bodies_ = [fn]
+            for c_ in own_nodes(fn):
+                if isinstance(c_, ast.Call) and isinstance(c_.func, ast.Name):
+                    r_ = schema.p.resolve(definer.module, c_.func.id)
+                    if getattr(r_, "node", None) is not None and isinstance(r_.node, ast.FunctionDef) and r_.node is not fn:
+                        bodies_.append(r_.node)
+            cp_ = next((c_ for b_ in bodies_ for c_ in ast.walk(b_) if isinstance(c_, ast.Call) and (text(c_.func) in ("copy", "deepcopy", "copy.copy", "copy.deepcopy")) and len(c_.args) == 1), None)
+            if cp_ is not None:
+                rep.check("A-R3", f"{cname}.{fn.name}:hands-out-the-objects-themselves", False, f"{text(cp_)[:40]}: the shortcut returns a copy, not the object that walking the full path yields - `ofx.statements[i] is ofx.<msgset>[i].<stmtrs>` fails, each read builds new objects, and a change made through the shortcut never reaches the tree", f"{definer.mod.relpath}:{cp_.lineno}")
             # what is collected is a statement: a local the function itself treats as possibly None (bound to None, or
             # tested against None somewhere) is appended only where `is not None` has been established
             if ret_names:
